@@ -220,3 +220,49 @@ func TestVerifRelayCopy(t *testing.T) {
 		fmt.Fprintf(w, "%s %d %s fuel=%s left=%d/%d %s\n", f[0], written, cls, vfB(l.fuel), nleft, len(l.wrs), strings.Join(l.evs, " "))
 	}
 }
+
+// ---- TLSConn's pass-through methods: each must reach the underlying connection as the same call, once, with the
+// same argument, and nothing else (a read deadline that also arms the write deadline breaks later writes)
+//
+// input : <id> D     output: <id> SetDeadline=<calls> SetReadDeadline=<calls> SetWriteDeadline=<calls> Close=<calls>
+//   calls = the calls seen by the underlying connection, joined by "+": d:<unix nanos> r:<..> w:<..> c
+type rlDlConn struct {
+	rlConn
+	calls []string
+}
+
+func (c *rlDlConn) SetDeadline(t time.Time) error      { c.calls = append(c.calls, fmt.Sprintf("d:%d", t.UnixNano())); return nil }
+func (c *rlDlConn) SetReadDeadline(t time.Time) error  { c.calls = append(c.calls, fmt.Sprintf("r:%d", t.UnixNano())); return nil }
+func (c *rlDlConn) SetWriteDeadline(t time.Time) error { c.calls = append(c.calls, fmt.Sprintf("w:%d", t.UnixNano())); return nil }
+func (c *rlDlConn) Close() error                       { c.calls = append(c.calls, "c"); return nil }
+
+func TestVerifRelayDeadlines(t *testing.T) {
+	sc, w, done := vfIO(t)
+	defer done()
+	for sc.Scan() {
+		f := vfFields(sc.Text())
+		if len(f) != 2 || f[1] != "D" {
+			continue
+		}
+		u := &rlDlConn{rlConn: rlConn{&rlLog{}, "s"}}
+		tc := NewTLSConn(u)
+		take := func() string {
+			s := strings.Join(u.calls, "+")
+			u.calls = nil
+			if s == "" {
+				s = "-"
+			}
+			return s
+		}
+		t1, t2, t3 := time.Unix(1700000001, 11), time.Unix(1700000002, 22), time.Unix(1700000003, 33)
+		tc.SetDeadline(t1)
+		a := take()
+		tc.SetReadDeadline(t2)
+		b := take()
+		tc.SetWriteDeadline(t3)
+		c := take()
+		tc.Close()
+		d := take()
+		fmt.Fprintf(w, "%s SetDeadline=%s SetReadDeadline=%s SetWriteDeadline=%s Close=%s\n", f[0], a, b, c, d)
+	}
+}
